@@ -196,11 +196,28 @@ func genCRLFProgs() Gen {
 // be loaded into a register first - the operand forms the compiler and the VM rarely see.
 func constPressure(n int) func(*Block) *Block {
 	return func(c *Block) *Block {
-		var items []Field
-		for i := 0; i < n; i++ {
-			items = append(items, Pos1(Num(float64(100000+i)+0.5)))
+		mkItems := func() []Field {
+			var items []Field
+			for i := 0; i < n; i++ {
+				items = append(items, Pos1(Num(float64(100000+i)+0.5)))
+			}
+			return items
 		}
-		st := []Stat{Local1("__cp", TableE(items...)), Emit(Str("constants"), Un("#", Name("__cp")), Index(Name("__cp"), Num(float64(n))))}
+		// the functions declared at the top level of the chunk (the test function and the callees of the
+		// families) get the same treatment: constants are per function
+		for _, st := range c.Stats {
+			var f *FuncExpr
+			switch x := st.(type) {
+			case *LocalFuncStat:
+				f = x.Func
+			case *FuncStat:
+				f = x.Func
+			}
+			if f != nil && f.Body != nil {
+				f.Body.Stats = append([]Stat{Local1("__cpf", TableE(mkItems()...))}, f.Body.Stats...)
+			}
+		}
+		st := []Stat{Local1("__cp", TableE(mkItems()...)), Emit(Str("constants"), Un("#", Name("__cp")), Index(Name("__cp"), Num(float64(n))))}
 		return Blk(append(st, c.Stats...)...)
 	}
 }
